@@ -102,8 +102,13 @@ class StringContainsToConcat:
 
     def global_mutations(self, node, input_):
         var = node[1]
+        if not var.is_leaf() or is_string_const(var) or is_piped_symbol(var):
+            # the names of the fresh variables are derived from the symbol
+            return []
         k1 = f'{var}_prefix'
         k2 = f'{var}_suffix'
+        if is_var(Node(k1)) or is_var(Node(k2)):
+            return []
         vars = [
             Node('declare-const', k1, 'String'),
             Node('declare-const', k2, 'String'),
